@@ -3700,7 +3700,8 @@ func (c *linkerContext) findImportedFilesInCSSOrder(entryPoints []uint32) (order
 			}
 			duplicates := layerDuplicates[index].indices
 			for j := len(duplicates) - 1; j >= 0; j-- {
-				if index := duplicates[j]; isConditionalImportRedundant(entry.conditions, wipOrder[index].conditions) {
+				if index := duplicates[j]; isConditionalImportRedundant(entry.conditions, wipOrder[index].conditions) &&
+					(len(layersKey) == 0 || !importConditionsHaveLayersAfter(entry.conditions, len(wipOrder[index].conditions))) {
 					if entry.kind != cssImportLayers {
 						// If an empty layer is followed immediately by a full layer and
 						// everything else is identical, then we don't need to emit the
@@ -3770,6 +3771,18 @@ func (c *linkerContext) findImportedFilesInCSSOrder(entryPoints []uint32) (order
 	}
 
 	return
+}
+
+// Layer names are relative to the layer that they are nested inside of. So the
+// same layer names nested inside of additional "layer(...)" import conditions
+// refer to different layers and are not made redundant by an earlier rule.
+func importConditionsHaveLayersAfter(conditions []css_ast.ImportConditions, index int) bool {
+	for i := index; i < len(conditions); i++ {
+		if len(conditions[i].Layers) > 0 {
+			return true
+		}
+	}
+	return false
 }
 
 func importConditionsAreEqual(a []css_ast.ImportConditions, b []css_ast.ImportConditions) bool {
